@@ -30,6 +30,11 @@ POOL = {
     "v_retf": "@guppy\ndef v_retf(x: int) -> float:\n    return 16.5\n",
     "v_decl": "@guppy.declare\ndef v_decl(x: float) -> int: ...\n",
     "v_none": "@guppy\ndef v_none() -> int:\n    return 18\n",
+    # variants that are generic ONLY in their result type (the parameter is inferred from the expected type
+    # in checking positions), next to a monomorphic one with the same result type
+    "v_genarr": "@guppy\ndef v_genarr[n: nat](x: int) -> array[int, n]:\n    return array(22 for _ in range(n))\n",
+    "v_arr2": "@guppy\ndef v_arr2(x: float) -> array[int, 2]:\n    return array(23, 23)\n",
+    "v_genpair": "@guppy\ndef v_genpair[n: nat](x: float) -> tuple[int, array[int, n]]:\n    return 24, array(0 for _ in range(n))\n",
     # a variant that is itself an overloaded function
     "v_nested": "@guppy.overload(v_bool, v_float)\ndef v_nested(): ...\n",
     # two variants whose Python-level function name is the same (defined in different scopes)
@@ -59,8 +64,13 @@ POSITIONS = {
     "check-float": "    r: float = {CALL}\n    return r\n",
     "return": "    return {CALL}\n",
     "argument": "    return takes_int({CALL})\n",
+    # the expected type fixes a type parameter that occurs in the RESULT only
+    "check-array": "    r: array[int, 2] = {CALL}\n    return r[0]\n",
+    "check-pair": "    r: tuple[int, array[int, 3]] = {CALL}\n    return r[0]\n",
+    "argument-array": "    return takes_arr({CALL})\n",
 }
-RET = {"synthesis": None, "check-int": "int", "check-float": "float", "return": "int", "argument": "int"}
+RET = {"synthesis": None, "check-int": "int", "check-float": "float", "return": "int", "argument": "int",
+       "check-array": "int", "check-pair": "int", "argument-array": "int"}
 PARAMS = "a: int, fl: float, n: nat, b: bool"
 
 
@@ -69,7 +79,8 @@ def program(defs, callee_expr, args, pos):
     body = POSITIONS[pos].replace("{CALL}", f"{callee_expr}({ARGS[args]})")
     outs = []
     for rt in ([ret] if ret else ["int", "float"]):
-        outs.append(defs + f"\n@guppy\ndef takes_int(v: int) -> int:\n    return v + 100\n\n@guppy\ndef main({PARAMS}) -> {rt}:\n{body}")
+        outs.append(defs + f"\n@guppy\ndef takes_int(v: int) -> int:\n    return v + 100\n\n"
+                    f"@guppy\ndef takes_arr(v: array[int, 2] @owned) -> int:\n    return v[0] + 200\n\n@guppy\ndef main({PARAMS}) -> {rt}:\n{body}")
     return outs
 
 
@@ -104,6 +115,19 @@ def eval_overload(item):
     return observe(program(defs, "f", args, pos))
 
 
+ARRAY_VARIANTS = {"v_genarr", "v_arr2", "v_genpair"}
+ARRAY_POSITIONS = {"check-array", "check-pair", "argument-array"}
+
+
+def _applies(variants, a, p):
+    """Which (list, args, position) combinations are enumerated.  Variants with an array result are only
+    used where the call is CHECKED against an expected type: in the synthesis template the surrounding
+    `r + 0` would reject the program for a reason that has nothing to do with overload resolution."""
+    if ARRAY_VARIANTS & set(variants):
+        return p != "synthesis" and a in ("int-var", "float-var", "int-literal")
+    return p not in ARRAY_POSITIONS
+
+
 def lists(tier):
     names = list(POOL)
     out = list(itertools.permutations(names, 2))
@@ -115,6 +139,7 @@ def lists(tier):
             for a, b in itertools.permutations(["v_int", "v_gen"], 2):
                 out += [(e, a, b), (a, e, b), (a, b, e)]
         out += [("v_same1", "v_same2", "v_int"), ("v_same2", "v_same1", "v_gen"), ("v_int2", "v_same1", "v_same2")]
+        out += list(itertools.permutations(["v_genarr", "v_arr2", "v_genpair", "v_int", "v_float"], 3))
         return out
     out += list(itertools.permutations(names, 3))
     core = ["v_int", "v_float", "v_nat", "v_gen", "v_retf", "v_int2"]
@@ -130,7 +155,7 @@ def run(ctx):
         if d[0] == "crash":
             ctx.violation(f"compiler-crash:direct:{k[0]}:{k[2]}", f"direct call {k}: {d[1]}", {"kind": "direct", "item": list(k)})
     ls = lists(ctx.tier)
-    items = [(l, a, p) for l in ls for a in ARGS for p in POSITIONS]
+    items = [(l, a, p) for l in ls for a in ARGS for p in POSITIONS if _applies(l, a, p)]
     res = ctx.pmap(eval_overload, items, chunk=32)
     acc = rej = 0
     samples = []
